@@ -145,7 +145,9 @@ def _marginal_params(case, extra=None):
     from gcmpy import JointDegreeNames as JN
     F = [dict((k, w) for k, w in col) for col in case["F"]]
     dens = case["dens"]
-    fps = [(lambda k, i=i: F[i].get(int(k), 0) / dens[i]) for i in range(len(F))]
+    # un-normalised marginals may be tiny in absolute terms (Boltzmann-type weights): an exact power of two keeps every ratio exact
+    fscale = 2.0 ** -case.get("fscale_pow", 0)
+    fps = [(lambda k, i=i: F[i].get(int(k), 0) / dens[i] * fscale) for i in range(len(F))]
     if case.get("shared_callable"):
         # the SAME callable object serves every topology (requires identical tables, as the case builder guarantees)
         fps = [fps[0]] * len(F)
@@ -157,7 +159,7 @@ def _marginal_params(case, extra=None):
 def run_marginal(case):
     import gcmpy
     from gcmpy import JointDegreeNames as JN
-    p, F = _marginal_params(case)
+    p, F = _marginal_params(case, {JN.USE_SAMPLING: False} if case.get("explicit_false") else None)   # the flag spelled out
     tr = _base("marginal", case)
     tr["F"] = [[{"k": k, "w": w} for k, w in col] for col in case["F"]]
     tr["bounds"] = [list(b) for b in case["bounds"]]
@@ -363,8 +365,10 @@ def run_cover(case):
                 return gcmpy.clique_motif(vs)
             builds.append(b)
 
+        ncomp = case.get("compose_n") or len(verts)      # also samples much smaller than the largest clique
+
         def go():
-            jds = obj.sample_jds_from_jdd(len(verts))
+            jds = obj.sample_jds_from_jdd(ncomp)
             gcmpy.GCMAlgorithmFast({GN.MOTIF_SIZES: sizes, GN.BUILD_FUNCTIONS: builds,
                                     GN.EDGE_NAMES: ["%d-clique" % s for s in sizes]}).random_clustered_graph(jds)
             return jds
